@@ -62,8 +62,8 @@ const (
 	// fixed in /repo (7c169cbd): the specification of the current tree (FixStall = TRUE)
 	// no longer has this behaviour, so a recurrence is rejected by TracePeer and
 	// reported as "leak:not-a-behaviour-of-the-spec"
-	keyLeakStall     = "leak:stallhandler-exits-after-first-quit-channel"
-	keyLeakLatePut   = "leak:blocking-put-after-queuehandler-drain"
+	keyLeakStall   = "leak:stallhandler-exits-after-first-quit-channel"
+	keyLeakLatePut = "leak:blocking-put-after-queuehandler-drain"
 )
 
 type tier struct {
@@ -925,11 +925,29 @@ func negativeControls(ctx *vrun.Ctx, traces []*Trace, verdicts []*verdict) error
 			}
 		}
 		if !have["fifo"] && len(wires) >= 2 {
-			c := clone(tr)
-			a, b := wires[0], wires[1]
-			c.Events[a], c.Events[b] = c.Events[b], c.Events[a]
-			controls, names = append(controls, c), append(names, "fifo")
-			have["fifo"] = true
+			// only a pair that was queued one after the other (the first call returned before the
+			// second began) has a mandatory wire order; concurrent senders may legally be written either way
+			qcall, qret := map[int]int{}, map[int]int{}
+			for k, e := range tr.Events {
+				if e.E == "qcall" {
+					qcall[e.A] = k
+				}
+				if e.E == "qret" {
+					qret[e.A] = k
+				}
+			}
+			for j := 0; j+1 < len(wires); j++ {
+				a, b := wires[j], wires[j+1]
+				ra, okA := qret[tr.Events[a].A]
+				cb, okB := qcall[tr.Events[b].A]
+				if okA && okB && ra < cb {
+					c := clone(tr)
+					c.Events[a], c.Events[b] = c.Events[b], c.Events[a]
+					controls, names = append(controls, c), append(names, "fifo")
+					have["fifo"] = true
+					break
+				}
+			}
 		}
 		if len(have) == 3 {
 			break
